@@ -11,11 +11,11 @@ func checkC08(p *Prog, r *Report) {
 	r.Rule("R1", "the insertion of a subscription is dominated by: server feature found, requested type present, client feature found on the requesting device, both passed the role/type check, entry built from exactly these features")
 	grantGuards(p, ls, r, "R1", subMgr)
 	r.Rule("R2", "the duplicate scan that decides the insertion and the insertion share one critical section; the scan is present")
-	absenceThenInsert(p, ls, r, "R2", "SubscriptionManager.subscriptionEntries", true, 1)
+	absenceThenInsert(p, ls, r, "R2", F("SubscriptionManager.subscriptionEntries"), true, 1)
 	r.Rule("R3", "RemoveSubscription keeps an entry ⇔ ¬(client device ∧ entity ∧ feature ∧ server feature equal); the per-entity removal keeps ⇔ ¬(client device ∧ client entity equal)")
-	applyRetain(p, r, "R3", "spine", "SubscriptionManager", "RemoveSubscription", retainSpec{Field: "SubscriptionManager.subscriptionEntries",
+	applyRetain(p, r, "R3", "spine", "SubscriptionManager", "RemoveSubscription", retainSpec{Field: F("SubscriptionManager.subscriptionEntries"),
 		Required: map[string]string{"client.device": "ClientFeature.Address().Device", "client.entity": "ClientFeature.Address().Entity", "client.feature": "ClientFeature.Address().Feature", "server.feature": "=ServerFeature"}})
-	applyRetain(p, r, "R3", "spine", "SubscriptionManager", "RemoveSubscriptionsForEntity", retainSpec{Field: "SubscriptionManager.subscriptionEntries",
+	applyRetain(p, r, "R3", "spine", "SubscriptionManager", "RemoveSubscriptionsForEntity", retainSpec{Field: F("SubscriptionManager.subscriptionEntries"),
 		Required: map[string]string{"client.device": "ClientFeature.Device().Ski()|ClientFeature.Address().Device", "client.entity": "ClientFeature.Address().Entity"}})
 	r.Rule("R4", "RemoveSubscription replaces the registry only if an entry was removed and reports an error otherwise")
 	removeMissRule(p, ls, r, "R4", subMgr)
